@@ -186,9 +186,11 @@ func (w *world) prepare(sc *scenario) {
 		switch sc.states[k] {
 		case ksFresh:
 			_ = w.be.Write(ttlCtx(span+24*time.Hour), key, initToken(key))
+			w.prepWrites++
 			w.log.noteStored(string(key), initToken(key))
 		case ksStaleRecent, ksStaleOld:
 			_ = w.be.Write(ttlCtx(span-sc.ages[k]), key, initToken(key))
+			w.prepWrites++
 			w.log.noteStored(string(key), initToken(key))
 		}
 	}
@@ -200,6 +202,7 @@ func (w *world) prepare(sc *scenario) {
 		if sc.prefail[k] {
 			e := &buildErr{key: string(scenKeys[k]), task: "init", n: 0}
 			w.fe.WriteFailure(bg, scenKeys[k], e)
+			w.prefailWrites++
 			w.log.builds = append(w.log.builds, &buildRec{key: string(scenKeys[k]), task: "init", getIdx: -1, err: e, enterStep: -1, exitStep: 0})
 		}
 	}
